@@ -101,3 +101,18 @@ capabilities!(modules: {
     workspace => WorkspaceCapabilities,
     diagnostic => DiagnosticCapabilities,
 });
+
+/// Verification hook (compiled only with `--cfg emmyluals_emmylua_analyzer_rust_verif`): re-exports the
+/// synchronous entry points of the position-taking request handlers, so that an external driver can call
+/// them with arbitrary documents and positions. Adds no behaviour.
+#[cfg(emmyluals_emmylua_analyzer_rust_verif)]
+pub mod verif_hooks {
+    pub use super::code_actions::code_action;
+    pub use super::completion::{completion, completion_resolve};
+    pub use super::definition::definition;
+    pub use super::hover::hover;
+    pub use super::implementation::implementation;
+    pub use super::references::references;
+    pub use super::rename::rename;
+    pub use super::signature_helper::signature_help;
+}
